@@ -165,12 +165,14 @@ META = {
               "alloc_diverges). Payload conservation (added = fetched + cancelled + stored-at-drop, each once, unchanged) is proved on the C01 calendar-queue "
               "model and transported to the queue-with-memory model CQMem. Tied to the code on every run: the allocator event stream of the real allocator and "
               "of CQueue<T> (6 payload types, with/without destructors, page sizes 64..65536) must be predicted address-exactly by the model and accepted by an "
-              "independent shadow-map checker; destructor logs and payload bytes are checked against the abstract event set."),
+              "independent shadow-map checker; destructor logs and payload bytes are checked against the abstract event set. The composed queue-with-memory model is proved to keep one live block per "
+              "bucket-resident event plus two sentinels per bucket, to free exactly the node of a fetched/cancelled event, and to release every block exactly once at drop while destroying exactly the pending payloads (cqmem_*). "
+              "In every reachable allocator state no free region fits a request of size in (P-16, P) (alloc_diverges_reachable, alloc_diverges_iff). Every event trace of the model is accepted by the shadow-map checker (model_trace_accepted)."),
         design_ref="DESIGN.md §5 C15",
         note=("Partial: aliasing/provenance/UB of the raw-pointer code is outside any Lean model (Miri flags Stacked/Tree-Borrows violations; see DESIGN.md). Trusted: "
               "Lean kernel; propext/Classical.choice/Quot.sound; hand transcription Rust->Lean (validated by address-exact replay); page oracle assumption; "
               "harness, hook observer, driver parser, orchestrator. Out of scope: usize overflow; sizes in (page-16, page) (find_region does not terminate, "
-              "observed under the hook's page limit); the CQMem node<->event invariant is checked on runs (every node released at drop), not proved."),
+              "observed under the hook's page limit and proved as alloc_diverges_reachable); model_trace_accepted is stated for the driver's canonical page oracle rather than an arbitrary OracleOk oracle."),
         technique=_T),
     "C05": dict(
         text=("Lean 4 theorems about the model of one module's timer driver (sorted slot queue, entry handles, next/bump, Driver.next_wakeup, "
@@ -179,13 +181,14 @@ META = {
               "from it a registered entry is woken at an event at exactly its deadline, not later, not lost (fires_exactly_at_deadline, live_timer_has_wakeup), "
               "never early / reached deadline immediate (never_early, reached_deadline_immediate), timeout_ok_iff_inner_by_deadline, interval_tick_times / "
               "interval_burst_ticks; lifted to the scripted simulation for all scripts (script_ops_admissible, sim_wakeinv_all_scripts, "
-              "sim_ends_with_no_pending_timer). Tied to the code by real des simulations running generated timer scripts whose every observation is compared "
+              "sim_ends_with_no_pending_timer); exactly-once and waker-level precision (fires_exactly_once, woken_only_when_due); for all scripts: termination of the scripted simulation on fuel computed from the state "
+              "(sim_run_terminates, sim_event_lowers_fuel), independence of the order of events of different modules incl. final time (tie_order_irrelevant, sim_loop_is_interleaving, sim_clock_is_latest_event), completions never early "
+              "(sim_completions_not_early) and at the deadline given the sleep is not overdue (script_completions_at_deadline). Tied to the code by real des simulations running generated timer scripts whose every observation is compared "
               "with the Lean model run. Found and repaired F3 (TimerQueue::next ignored live slots behind an emptied front slot); witnesses "
               "orig_next_*_witness keep the pre-repair function refuted."),
         design_ref="DESIGN.md §5 C05, §6 F3",
-        note=("Trusted/partial: tokio waker plumbing (a woken task is re-polled in the same event, C06); event-set time order (C01/C03) enters as the hypothesis "
-              "EvOk/Consistent; Weak<TimerSlot> handle = slot deadline; equal-time events of different modules ordered by module index in the model "
-              "(independent modules); model fuel not proved sufficient; never-lost clause for deadlines < SimTime::MAX; select! modelled biased; overflow out of scope."),
+        note=("Trusted/partial: tokio waker plumbing (a woken task is re-polled in the same event, C06); event-set time order (C01/C03) as hypothesis EvOk/Consistent of the op-level theorems; Weak<TimerSlot> handle = slot deadline; "
+              "script-level not-late is conditional on OwnOk and otherwise checked per model run by the driver; never-lost clause for deadlines < SimTime::MAX; select! modelled biased; overflow out of scope."),
         technique=_T),
     "C20": dict(
         text=("Lean 4 theorems about a typed ownership graph of a stopped des simulation (Runtime/Sim, Profiler, Globals, ModuleTree, ctx/processor/state/PE, async ext, tokio rt, task cell/state, mpsc, driver, TimerQueue/Slot, gates with connection slots, channels, probes, buffer entries, messages, bodies, queued/event connections, event entries in FES / Profiler.remaining / BUF_CTX) "
@@ -224,10 +227,11 @@ META = {
               "select! start index per poll): the whole run under ambient a is the id-renaming of the canonical run at every step (C04.states_related_by_renaming), hence trace, "
               "time, event count, result are ambient-independent (C04.run_ambient_independent / trace_ambient_independent), a second simulation does not see the counters the first "
               "left behind (C04.second_run_independent_of_first), the stream is consumed from the front only and draw order is ambient-independent, dispatch = FES.fetch. Tied to the code "
-              "by executing every generated (model, seed) four times (twice back to back, after a noise simulation, in a child process), comparing the canonical traces, and replaying the model on the recorded stream."),
+              "by executing every generated (model, seed) four times (twice back to back, after a noise simulation, in a child process), comparing the canonical traces, and replaying the model on the recorded stream; "
+              "modules may shut down and restart: the seed of every incarnation's tokio runtime is an element of the stream (C04.restart_seed_from_stream, restart_seed_is_next_draw)."),
         design_ref="DESIGN.md §5 C04",
         note=("Partial: StdRng / tokio FastRand are inputs (equal seeds => equal streams is checked only by the four real executions); tokio 1.45.1 current-thread scheduling order is a hand transcription "
-              "validated by the correspondence runs; receives, LocalSet, shutdown/restart, busy channels not generated. Trusted: Lean kernel; axioms propext/Quot.sound; harness, driver parser, orchestrator. "
+              "validated by the correspondence runs; receives, LocalSet, busy channels, panics not generated. Trusted: Lean kernel; axioms propext/Quot.sound; harness, driver parser, orchestrator. "
               "Open finding F-C04a: tokio drops unfinished tasks in an order that depends on the process-global task-id counter. Model mirrors /repo after fixes F-C04b (build-time clock) and F-C04c (ModuleId::NULL after wrap)."),
         technique=_T),
 }
